@@ -80,7 +80,7 @@ def main():
             na.append({"property_id": pid, "reason": "check under construction in this session (static rules designed in DESIGN.md section 4, not yet registered)"})
     man = {
         "version": 1,
-        "setup_cmd": "python3-vt -c \"import sys; sys.path.insert(0, '/verif'); import sa.model, sa.cfg, sa.defuse, sa.algebra, sa.calls, sa.struct, sa.common, sa.report, sa.normalize, sa.guards, sa.roles, sa.role_table, sa.regions, sa.segvec, sa.shape, sa.arrterm; assert len(sa.normalize.vocab().get('functions', [])) > 200; print('sa engine importable')\"",
+        "setup_cmd": "python3-vt -c \"import sys; sys.path.insert(0, '/verif'); import sa.model, sa.cfg, sa.defuse, sa.algebra, sa.calls, sa.struct, sa.common, sa.report, sa.normalize, sa.guards, sa.roles, sa.role_table, sa.regions, sa.segvec, sa.shape, sa.arrterm, sa.closure, sa.layout; assert len(sa.normalize.vocab().get('functions', [])) > 200; print('sa engine importable')\"",
         "hooks": {
             "guard": "IBL_NEUROPIXEL_VERIF",
             "enable": "none needed: the checks parse /repo's source and never build or run it; no hook commits exist",
